@@ -51,6 +51,8 @@ pub struct QuakeState {
     pub both_spellings: Vec<(String, String)>,
     /// QuakeWorld servers send the text with its terminating NUL (strlen + 1 bytes)
     pub trailing_nul: bool,
+    /// the variables line ends with a backslash after its last pair (an empty dangling token, not a variable)
+    pub trailing_backslash: bool,
 }
 
 const Q_KNOWN: &[&str] = &["hostname", "sv_hostname", "mapname", "map", "maxclients", "sv_maxclients", "version", "*version"];
@@ -118,6 +120,7 @@ impl QuakeState {
             names_with_spaces,
             both_spellings: Vec::new(),
             trailing_nul: t.draw(DATA, 3) == 0,
+            trailing_backslash: t.draw(DATA, 10) == 0,
         }
     }
 
@@ -175,6 +178,9 @@ impl QuakeState {
         }
         for (k, v) in &self.both_spellings {
             kv(k, v);
+        }
+        if self.trailing_backslash {
+            s.push('\\');
         }
         s.push('\n');
         for p in &self.players {
